@@ -371,3 +371,7 @@ def run(rep: Report, prog: Program, tier: str) -> None:
                                     f"get the later packets", construct="stale routing decision " + n.func.attr))
     if n_route < 2:
         raise AnalysisError("route_rtp / route_rtcp call sites not found in RTCDtlsTransport")
+
+    # ---------------- C12-REMB (= C07-REMB): the SSRC list inside a REMB is decoded as written
+    from .common import import_rules
+    import_rules(rep, prog, tier, PROP, "C12-REMB", "C07", ["C07-REMB"], "REMB SSRC lists survive pack/unpack (rule C07-REMB): route_rtcp sees the SSRCs the sender listed", 12)
